@@ -114,8 +114,8 @@ def projection_convention(fi):
             sub_expr = target = None
             if isinstance(n, ast.AugAssign) and isinstance(n.op, ast.Sub):
                 sub_expr, target = n.value, n.target
-            elif isinstance(n, ast.Assign) and isinstance(n.value, ast.BinOp) and isinstance(n.value.op, ast.Sub):
-                sub_expr, target = n.value.right, n.value.left
+            elif isinstance(n, (ast.Assign, ast.Return)) and isinstance(n.value, ast.BinOp) and isinstance(n.value.op, ast.Sub):
+                sub_expr, target = n.value.right, n.value.left  # w = w - c * Z, also as the returned value
             if sub_expr is None:
                 continue
             inline = any(x is v for x in ast.walk(sub_expr))
